@@ -40,5 +40,9 @@ func (q *persistentPriorityQueue[T]) Add(data T, priority int, configs ...JobCon
 }
 
 func (q *persistentPriorityQueue[T]) Purge() {
-	q.priorityQueue.Purge()
+	// let the event loop release WaitUntilFinished callers if nothing is left
+	defer q.w.notifyToPullNextJobs()
+
+	// the stored entries are serialized jobs: there is no handle to release, the adapter drops them
+	q.internalQueue.Purge()
 }
